@@ -807,9 +807,13 @@ class _Injected(np.linalg.LinAlgError):
     pass
 
 
-def call_with_raising(name, k, fn, *args):
-    """run fn(*args) with the backend function `name` (lstsq / solve) raising a LinAlgError at its k-th call (0-based)"""
+def call_with_raising(name, k, fn, *args, module=None):
+    """run fn(*args) with the backend function `name` (lstsq / solve) -- or the attribute `name` of `module` (initialize_cp as
+    imported by tensorly.regression.cp_plsr) -- raising a LinAlgError at its k-th call (0-based)"""
     import tensorly.backend as TB
+    if module is not None:
+        import importlib
+        TB = importlib.import_module(module)
     orig = getattr(TB, name)
     cnt = [0]
 
@@ -1005,8 +1009,11 @@ def plsr_seq_program(rng):
            ("transform_bad_y", "B", rng.choice(["Y3d", "cols"])),
            ("set", {"n_components": kA}), ("fit", "A"), ("predict", "A"), ("transform_xy_one", "A"), ("transform_xy_mismatch", "A"),
            ("fit_raise", "C", rng.randint(0, max(0, kA - 1))), ("predict", "A"), ("transform", "A"), ("transform_xy", "A"),
-           ("fit", "C"), ("predict", "A"), ("transform_train", "C"), ("transform_xy_train", "C")]
-    pool = [("fit", "A"), ("fit", "B"), ("fit", "C"), ("fit_transform", "A"), ("predict", "A"), ("predict", "B"), ("transform", "A"), ("transform_xy", "B"),
+           ("fit", "C"), ("predict", "A"), ("transform_train", "C"), ("transform_xy_train", "C"), ("score", "A"), ("score_train", "C"),
+           ("fit_raise_init", "A", rng.randint(0, max(0, kA - 1))), ("predict", "A"), ("transform", "A"), ("score", "A"), ("transform_xy", "A"),
+           ("fit", "A"), ("score_train", "A")]
+    pool = [("score", "A"), ("score", "B"), ("fit_raise_init", "B", rng.randint(0, 1)), ("fit_raise_init", "C", 0),
+            ("fit", "A"), ("fit", "B"), ("fit", "C"), ("fit_transform", "A"), ("predict", "A"), ("predict", "B"), ("transform", "A"), ("transform_xy", "B"),
             ("set", {"n_iter_max": 0}), ("set", {"n_iter_max": rng.randint(1, 2)}), ("set", {"n_components": rng.randint(0, min(A["cmax"], B["cmax"]))}),
             ("fit_bad", "B", rng.choice(["uncoupled", "vectorX", "Y3d"])), ("transform_train", "B"), ("fit_raise", "A", rng.randint(0, 1)),
             ("transform_xy_one", "B"), ("transform_xy_mismatch", "A")]
@@ -1031,7 +1038,7 @@ def plsr_seq_case(prog):
         return f"PTensor {qt(v)}"
     for op in prog["ops"]:
         d = prog[op[1]] if len(op) > 1 and isinstance(op[1], str) else None
-        if op[0] in ("fit", "fit_transform", "fit_bad", "fit_raise"):
+        if op[0] in ("fit", "fit_transform", "fit_bad", "fit_raise", "fit_raise_init"):
             X, Y = d["X"], d["Y"]
             if op[0] == "fit_bad":
                 if op[2] == "uncoupled":
@@ -1051,9 +1058,19 @@ def plsr_seq_case(prog):
             else:
                 it, bt = "[]", "[]"
             fn = r.fit_transform if op[0] == "fit_transform" else r.fit
-            if op[0] == "fit_raise":          # lstsq raises (LinAlgError) at component op[2]: the columns written so far stay
-                out = call_with_raising("lstsq", op[2], fn, X.copy(), Y.copy())
-                calls.append(f"QFitRaise {C.nat(op[2])} {qt(X)} {qt(Y)} {it} {bt}")
+            if op[0] in ("fit_raise", "fit_raise_init"):
+                # lstsq raises (LinAlgError) at component op[2]: the columns written so far stay; initialize_cp raises in the first
+                # pass of component op[2]: nothing of that component has been written
+                if op[0] == "fit_raise":
+                    out = call_with_raising("lstsq", op[2], fn, X.copy(), Y.copy())
+                    calls.append(f"QFitRaise {C.nat(op[2])} {qt(X)} {qt(Y)} {it} {bt}")
+                else:
+                    out = call_with_raising("initialize_cp", op[2], fn, X.copy(), Y.copy(), module="tensorly.regression.cp_plsr")
+                    calls.append(f"QFitInitRaise {C.nat(op[2])} {qt(X)} {qt(Y)} {it} {bt}")
+                    if _raised(out) and cur["n_iter_max"] > 0 and hasattr(r, "X_factors"):
+                        cols = [np.asarray(f)[:, op[2]:] for f in list(r.X_factors) + list(r.Y_factors)] + [np.asarray(r.coef_)[:, op[2]:]]
+                        if any(np.any(cc != 0) for cc in cols):
+                            bad.append(("C19_object_state", f"a fit interrupted by initialize_cp raising in component {op[2]} left non-zero columns from that component on"))
                 exp.append("PSelf" if not _raised(out) else "PRaise")
                 if _raised(out):
                     fitted = None
@@ -1092,6 +1109,19 @@ def plsr_seq_case(prog):
             if op[0] == "transform_train" and fitted is not None and fitted[0] == op[1] and cur["n_components"] <= fitted[1]:
                 if _raised(out) or not close(out[1], np.asarray(r.X_factors[0])[:, :cur["n_components"]], 1e-8):
                     bad.append(("C19_plsr_transform_train", f"transform(X_train) with n_components = {cur['n_components']} (fitted {fitted[1]}) != the leading fitted score columns"))
+        elif op[0] in ("score", "score_train"):
+            Xq, Yq = (d["X"], d["Y"]) if op[0] == "score_train" else (d["Xn"], d["Yn"])
+            Yq = np.asarray(Yq).reshape(Xq.shape[0], -1)           # matrix targets (a vector Y is broadcast by score: reported)
+            out = call(r.score, Xq.copy(), Yq.copy())
+            if not _raised(out) and not np.isfinite(out[1]):
+                continue
+            calls.append(f"QScore {qt(Xq)} {qt(Yq)}")
+            exp.append("PRaise" if _raised(out) else f"PTensor {qt(np.asarray(float(out[1])))}")
+            if not _raised(out):
+                stp, pz = call(r.predict, Xq.copy())
+                ref = 1.0 - float(np.sum((np.asarray(pz) - Yq) ** 2)) / float(np.sum((Yq - np.asarray(r.Y_mean_)) ** 2)) if stp == "ok" else None
+                if ref is None or not close(out[1], ref, 1e-8):
+                    bad.append(("C19_plsr_predict", "score(X, Y) != 1 - |predict(X) - Y|^2 / |Y - Y_mean_|^2 of the exposed attributes"))
         elif op[0] in ("transform_xy", "transform_xy_train", "transform_bad_y", "transform_xy_one", "transform_xy_mismatch"):
             Xq, Yq = (d["X"], d["Y"]) if op[0] == "transform_xy_train" else (d["Xn"], d["Yn"])
             if op[0] == "transform_xy_one":           # one X sample against all training targets: NumPy broadcasts the in-place update
@@ -1709,7 +1739,9 @@ def generate_source_groups(repo):
     pred_defs = pred[:pred.index("Lemma predict_cp_src_ok")]
     cpl = gen_regressor(os.path.join(R, "cp_regression.py"), "CPRegressor", "cp", "cp_to_tensor", "cp_to_vec", "cp_weight_")
     tkl = gen_regressor(os.path.join(R, "tucker_regression.py"), "TuckerRegressor", "tk", "tucker_to_tensor", "tucker_to_vec", "tucker_weight_")
-    return [("CP_PLSR shape tests and pre-loop attributes", SRC_HEADER + plsr + PLSR_LEMMAS, SRC_HEADER + plsr + PLSR_BOX),
+    from harness.props import C19_blocks
+    blocks = [(name, text, None) for name, text in C19_blocks.generate(repo)]
+    return blocks + [("CP_PLSR shape tests and pre-loop attributes", SRC_HEADER + plsr + PLSR_LEMMAS, SRC_HEADER + plsr + PLSR_BOX),
             ("CPRegressor.fit loop", SRC_HEADER + cpl, SRC_HEADER + cpl[:cpl.index("Lemma loop_cp_ok")] + "End Src_cp.\n" + LOOP_BOX.replace("TAG", "cp")),
             ("TuckerRegressor.fit loop", SRC_HEADER + tkl, SRC_HEADER + tkl[:tkl.index("Lemma loop_tk_ok")] + "End Src_tk.\n" + LOOP_BOX.replace("TAG", "tk")),
             ("predict of both regressors", SRC_HEADER + pred, SRC_HEADER + pred_defs + PREDICT_BOX)]
@@ -1737,15 +1769,16 @@ def source_tie(chk):
             return "failed", (r.stdout + r.stderr)[-1500:]
         return "skipped", f"coqc rc {r.returncode} (killed / timeout on a loaded machine)"
     try:
+        from harness.props import C19_blocks
         try:
             groups = generate_source_groups(C.REPO)
-        except (Untranslatable, KeyError, IndexError, ValueError, SyntaxError, OSError) as e:
+        except (Untranslatable, C19_blocks.Untranslatable, KeyError, IndexError, ValueError, SyntaxError, OSError, AttributeError, ImportError) as e:
             chk.broken.append({"what": "source tie corr:C19-source broken: the ast translator does not cover the current source of tensorly/regression (validation chain of CP_PLSR, "
                                        "attributes bound before its component loop, loop skeleton / stopping test / stored attributes of the regressors, predict)", "detail": f"{type(e).__name__}: {e}"})
             chk.cov["source_derived_lemmas"] = "untranslatable source"
             return
         chk.checker_cmds.append("coqc on generated build/gen/C19_*/Src*.v (tensorly/regression source -> Gallina): fit_rejects_src_ok, y_matrix_src_ok, predict_x_rejects_src_ok, "
-                                "transform_x_rejects_src_ok, transform_y_rejects_src_ok, pre_loop_attrs_src_ok, loop_cp_ok, fit_cp_ok, loop_tk_ok, fit_tk_ok, predict_cp_src_ok")
+                                "transform_x_rejects_src_ok, transform_y_rejects_src_ok, pre_loop_attrs_src_ok, loop_cp_ok, fit_cp_ok, loop_tk_ok, fit_tk_ok, predict_cp_src_ok, cp_blocks_src_box, tk_blocks_src_box")
         res = {}
         from concurrent.futures import ThreadPoolExecutor
         with ThreadPoolExecutor(max_workers=4) as ex:
@@ -1827,6 +1860,60 @@ def dtype_probes(chk, rng):
     chk.cov["integer_input_probe"] = res.get("plsr/int64 new data", "not run")
 
 
+def degenerate_probes(chk, rng):
+    """degenerate training data through CP_PLSR.fit (implementation only; the unit-norm clause is conditional on a successful fit):
+    constant X, constant Y, X'Y = 0 exactly (every normalisation is 0/0), a NaN in X (the SVD inside initialize_cp raises in
+    component 0: the object must be left with the zero factors bound before the component loop, C19_plsr_fit_init_raising_first).
+    A fit that RETURNS on such data with a loading column that is not finite or not of unit norm is a finding; a raise is
+    recorded.  Also: score(X, y) for a vector y (reported: the (n, 1) predictions are broadcast against the (n,) targets)."""
+    from tensorly.regression.cp_plsr import CP_PLSR
+    res = {}
+    n, sx = 4, (2, 3)
+    A = dyadic(rng, sx, denom=8); A[0, 0] = 1.0
+    s = np.array([1.0, -1.0, 1.0, -1.0]); t = np.array([1.0, 1.0, -1.0, -1.0])
+    Xb = dyadic(rng, (n,) + sx, denom=8); Yb = dyadic(rng, (n, 2), denom=8)
+    Xnan = Xb.copy(); Xnan[rng.randint(0, n - 1), 1, rng.randint(0, 2)] = np.nan
+    data = {"constant X": (np.broadcast_to(Xb[0], (n,) + sx).copy(), Yb),
+            "constant Y": (Xb, np.broadcast_to(Yb[0], (n, 2)).copy()),
+            "X'Y = 0": (s[:, None, None] * A, np.stack([t, 2 * t], 1)),
+            "NaN in X": (Xnan, Yb)}
+    for name, (X, Y) in data.items():
+        for ncomp in (1, 2):
+            r = CP_PLSR(n_components=ncomp, tol=0.0, n_iter_max=2)
+            try:
+                out = call(r.fit, X.copy(), Y.copy())
+            except Skip:
+                continue
+            inp = {"kind": "plsr_degenerate", "X": X, "y": Y, "ncomp": ncomp, "n_iter": 2, "tol": 0.0, "what": name}
+            if out[0] == "ok":
+                cols = [np.linalg.norm(np.asarray(f), axis=0) for f in list(r.X_factors[1:]) + [r.Y_factors[1]]]
+                if not all(np.all(np.isfinite(c)) and np.all(np.abs(c - 1) <= 1e-9) for c in cols):
+                    chk.finding(ENTRY["plsr"], inp, f"fit on degenerate data ({name}) returned normally with loading columns of norm {[c.tolist() for c in cols]}", "C19_plsr_unit_norm")
+                res[f"{name} / {ncomp}"] = "fit returned"
+            else:
+                res[f"{name} / {ncomp}"] = "raises: " + str(out[1])[:60]
+                if name == "NaN in X" and hasattr(r, "X_factors"):
+                    cols = list(r.X_factors) + list(r.Y_factors) + [r.coef_]
+                    if any(np.any(np.asarray(c) != 0) for c in cols):
+                        chk.finding(ENTRY["plsr"], inp, "fit raised in initialize_cp of component 0 but left non-zero factor columns", "C19_object_state")
+            chk.count(key=("degenerate_probe", name, ncomp), nontrivial=True)
+    chk.cov["degenerate_probe"] = res
+    # score with a vector target
+    X = dyadic(rng, (6, 2, 3), denom=8); y = X.reshape(6, -1) @ dyadic(rng, (6,), denom=4) + 0.25 * dyadic(rng, (6,), denom=8)
+    try:
+        st, r = call(fit_plsr_opts, X, y, 1, 3, 0.0)
+        if st == "ok":
+            a = call(r.score, X.copy(), y.copy()); b = call(r.score, X.copy(), y.reshape(-1, 1).copy())
+            if a[0] == "ok" and b[0] == "ok":
+                chk.cov["score_vector_y_probe"] = ("agrees with the column form" if close(a[1], b[1], 1e-9) else
+                    f"score(X, y) = {float(a[1]):.6g} for a vector y, {float(b[1]):.6g} for the same targets as a column "
+                    "(reported: build/fix_candidates/C19_plsr_score_vector_y.md)")
+            else:
+                chk.cov["score_vector_y_probe"] = f"raises: {a[1] if a[0] != 'ok' else b[1]}"[:120]
+    except Skip:
+        pass
+
+
 # ----------------------------------------------------------------------------- driver
 def describe(p):
     d = {k: v for k, v in p.items() if k not in ("X", "y", "Xn", "c", "d", "_seq", "loop_bad")}
@@ -1853,6 +1940,9 @@ def eval_problem(p):
     st, r = call(fit_plsr, p["X"], p["y"], p["ncomp"], p.get("n_iter", 100), p.get("tol", 1e-9))
     if st != "ok":
         return "fit-raised", [], [], True
+    cols = [np.linalg.norm(np.asarray(f), axis=0) for f in list(r.X_factors[1:]) + [r.Y_factors[1]]]
+    if not all(np.all(np.isfinite(c)) for c in cols):
+        return "ok", [("C19_plsr_unit_norm", f"a fit that returned normally exposes non-finite loading columns (norms {[c.tolist() for c in cols]})")], [], True
     if not plsr_wellposed(r):
         return "ill-conditioned", [], [], True
     bad, comparable = plsr_predicates(p, r)
@@ -1891,6 +1981,19 @@ def run(chk):
     C.reset_backends()
     source_tie(chk)
     dtype_probes(chk, random.Random(chk.seed + 19))
+    # LAPACK reports the NaN arguments of the degenerate fits on the process's stdout / stderr ("On entry to DLASCL ..."): keep the
+    # check's output clean
+    import os, sys
+    sys.stdout.flush(); sys.stderr.flush()
+    _saved = (os.dup(1), os.dup(2)); _dn = os.open(os.devnull, os.O_WRONLY)
+    os.dup2(_dn, 1); os.dup2(_dn, 2)
+    try:
+        degenerate_probes(chk, random.Random(chk.seed + 23))
+    finally:
+        sys.stdout.flush(); sys.stderr.flush()
+        os.dup2(_saved[0], 1); os.dup2(_saved[1], 2)
+        for _fd in _saved + (_dn,):
+            os.close(_fd)
     cases, meta = [], []
     # 1. exact predict cases
     for kind, W, X in z_predict_cases(chk.tier, rng):
